@@ -480,8 +480,15 @@ impl Prop for C09 {
             }
             5 => {
                 // Minecraft: specific variants the host speaks
-                let sel = 2 + (stratum % 10);
-                let m = c03::build(t, 31, sel);
+                // (two strata in fourteen: the auto-detecting queries against a host that speaks a drawn subset of
+                // the variants, so that the later probes of the chain are sent too)
+                let sel = match stratum % 14 {
+                    12 => 0,
+                    13 => 1,
+                    k => 2 + k % 10,
+                };
+                let subset = if sel < 2 { 1 + (stratum / 14) % 31 } else { 31 };
+                let m = c03::build(t, subset as u32, sel);
                 (m.built.call, m.built.world, m.built.detail)
             }
             _ => {
